@@ -27,3 +27,4 @@ META = dict(
     design_ref="DESIGN.md §4 C11",
     technique="CBMC bounded symbolic execution of real fstree.c/post_process.c with symbolic names (covers all insertion orders), SAT",
 )
+META["text"] += ' child_by_name() is proved to match exactly the queried component.'
